@@ -710,3 +710,130 @@ for _method, _xmethod, _event in (('validate_pre_sds_if_applicable', 'validate_p
                raises={svh_exception.SvhValidationException: {}, svh_exception.SvhHardErrorException: {},
                        ArbitraryException: {}},
                raises_only=())
+
+
+# ====================================================================================== D: existence of paths
+# "names a missing file in a home directory": the generic path-existence validators check a path BEFORE the
+# sandbox exists exactly when it can exist then -- it is absolute or relative to a home directory -- and after
+# the sandbox has been created otherwise; each path is checked in exactly one of the two steps.
+# (Strengthened after the seeded change C03-s1, which classified absolute paths as post-sandbox.)
+
+from exactly_lib.impls.types.path import path_validator as _path_validator
+from exactly_lib.tcfs.path_relativity import RelOptionType, SpecificPathRelativity, DirectoryStructurePartition
+from exactly_lib.type_val_deps.types.path.path_ddv import PathDdv as _PathDdv
+
+
+class _AnyPathDdv(_PathDdv):
+    """a PathDdv known only by its relativity (None: absolute)"""
+
+    def relativity(self):
+        return SpecificPathRelativity(self._rel)
+
+
+_AnyPathDdv.__abstractmethods__ = frozenset()      # the other methods are not used by what is verified here
+
+_LIES_IN_THE_SANDBOX_OR_CWD = (RelOptionType.REL_ACT, RelOptionType.REL_TMP, RelOptionType.REL_RESULT,
+                               RelOptionType.REL_CWD)
+
+_ANY_PATH_DDV = Inst(_AnyPathDdv, _rel=Opt(EnumOf(RelOptionType)))
+
+M.contract('exactly_lib.type_val_deps.types.path.path_ddv:PathDdv.exists_pre_sds',
+           params=dict(self=_ANY_PATH_DDV), returns=Bool, inline=True,
+           ensures={'exists before the sandbox iff absolute or relative to a home directory': lambda self, result:
+           result == (self._rel not in _LIES_IN_THE_SANDBOX_OR_CWD)},
+           raises_only=())
+
+M.contract('exactly_lib.type_val_deps.types.path.path_ddv:PathDdv.resolving_dependency',
+           params=dict(self=_ANY_PATH_DDV), inline=True,
+           ensures={'None iff absolute, HDS iff relative to a home directory, NON_HDS otherwise': lambda self, result:
+           result is (None if self._rel is None else
+                      DirectoryStructurePartition.NON_HDS if self._rel in _LIES_IN_THE_SANDBOX_OR_CWD
+                      else DirectoryStructurePartition.HDS)},
+           raises_only=())
+
+
+class _DescribedPathI(Interface):
+    attrs = {}
+
+
+class _CheckedPathDdvI(Interface):
+    """the PathDdv that a validator checks: when it exists, and its two described values"""
+    target_class = _PathDdv
+    methods = {
+        'exists_pre_sds': Method(returns=Bool, pure=True),
+        'value_pre_sds__d': Method(returns=Iface(_DescribedPathI), event='value-pre-sds'),
+        'value_post_sds__d': Method(returns=Iface(_DescribedPathI), event='value-post-sds'),
+    }
+
+
+class _AnyPathDdvValidator(_path_validator.PathDdvValidatorBase):
+    """a concrete existence validator: what `_validate_path` says about a path is opaque"""
+
+    def _validate_path(self, path):
+        return self._check.check(path)
+
+
+_AnyPathDdvValidator.__abstractmethods__ = frozenset()
+
+
+class _PathCheckI(Interface):
+    methods = {'check': Method(returns=Opt(Any_), event='check-path')}
+
+
+class _TcdsI(Interface):
+    attrs = {'sds': Any_, 'hds': Any_}
+
+
+_DDV_VALIDATOR = Inst(_AnyPathDdvValidator, _path_ddv=Iface(_CheckedPathDdvI), _check=Iface(_PathCheckI))
+
+
+def _checks(trace):
+    return [e for e in trace if e[0] == 'check-path']
+
+
+M.contract('exactly_lib.impls.types.path.path_validator:PathDdvValidatorBase.validate_pre_sds_if_applicable',
+           params=dict(self=_DDV_VALIDATOR, hds=Any_), returns=Opt(Any_),
+           ensures={
+               'a path that exists before the sandbox is checked now; any other path is not checked in this step':
+                   lambda self, trace: len(_checks(trace)) == (1 if self._path_ddv.exists_pre_sds() else 0),
+               'its verdict is the verdict of the check': lambda self, result, trace:
+               result is (c01.outcome_event(trace, 'check-path')[1] if self._path_ddv.exists_pre_sds() else None),
+           }, raises_only=())
+
+M.contract('exactly_lib.impls.types.path.path_validator:PathDdvValidatorBase.validate_post_sds_if_applicable',
+           params=dict(self=_DDV_VALIDATOR, tcds=Iface(_TcdsI)), returns=Opt(Any_),
+           ensures={
+               'exactly the paths that cannot exist before the sandbox are checked after it has been created':
+                   lambda self, trace: len(_checks(trace)) == (0 if self._path_ddv.exists_pre_sds() else 1),
+               'its verdict is the verdict of the check': lambda self, result, trace:
+               result is (None if self._path_ddv.exists_pre_sds() else c01.outcome_event(trace, 'check-path')[1]),
+           }, raises_only=())
+
+
+# ====================================================================================== E: symbols
+# "refers to an undefined or wrongly typed symbol ... VALIDATION_ERROR and nothing is executed": the checking of
+# symbol usages against the growing table and the type restrictions (direct and, transitively, indirect) are
+# under contract in C08; those clauses carry C03 as well, the check of C03 re-proves them on the current tree.
+# (After the seeded change C03-s2, which followed only the first indirect reference.)
+
+def _share_symbol_validation():
+    import importlib
+    c08 = importlib.import_module('contracts.C08_symbols')
+    wanted_suffixes = (
+        ':_validate_reference', ':_validate_symbol_reference', ':_validate_symbol_definition',
+        ':validate_symbol_usage', ':validate_symbol_usages',
+        ':ReferenceRestrictionsOnDirectAndIndirect._check_indirect',
+        ':ReferenceRestrictionsOnDirectAndIndirect.check_indirect',
+        ':ReferenceRestrictionsOnDirectAndIndirect.is_satisfied_by',
+        ':OrReferenceRestrictions._no_satisfied_restriction', ':OrReferenceRestrictions.is_satisfied_by',
+        ':ArbitraryValueWStrRenderingRestriction.is_satisfied_by', ':ValueTypeRestriction.is_satisfied_by',
+    )
+    n = 0
+    for c in c08.M.contracts:
+        if c.qname.endswith(wanted_suffixes):
+            c.props = tuple(sorted(set(c.props) | {'C03'}))
+            n += 1
+    assert n >= len(wanted_suffixes), n
+
+
+M.after_load = _share_symbol_validation
